@@ -483,19 +483,33 @@ def ppo_item(item, col):
 # -- tabular ------------------------------------------------------------------------------------
 
 
+class _Relabel:
+    """Collector proxy: C14's prefix-differencing oracle (step t of the public train_* changes only
+    entry (o_t, a_t), by the textbook amount computed from the ground-truth transition of the
+    environment log) decides C01's clause for the tabular learners; its findings are re-labelled."""
+
+    def __init__(self, col):
+        self._col = col
+
+    def violation(self, signature, detail=None, item=None):
+        parts = signature.split("|")
+        self._col.violation(SIG.format(parts[1], "tabular-update-not-from-the-env-transition:" + parts[2]), detail)
+
+    def __getattr__(self, name):
+        return getattr(self._col, name)
+
+
 def tabular_item(item, col):
-    try:
-        from checks import c14
-    except Exception as e:  # noqa: BLE001
-        col.cap(f"tabular prefix differencing unavailable (checks/c14.py not importable: {type(e).__name__})")
-        col.tick(1)
-        return
-    fn = getattr(c14, "c01_tabular", None)
-    if fn is None:
-        col.cap("tabular prefix differencing unavailable (checks/c14.py exposes no c01_tabular)")
-        col.tick(1)
-        return
-    fn(item, col, SIG)
+    from checks import c14
+
+    learner = {"q_learning": "ql", "sarsa": "sarsa", "double_q_learning": "dql", "monte_carlo": "mc", "dynaq": "dyna"}[item["algo"]]
+    its = [i for i in c14.items(item["tier"], item["seed"]) if i["kind"] == "history" and i["cfg"]["learner"] == learner]
+    first = its[0]["cfg"]["cfg"]
+    its = [i for i in its if i["cfg"]["cfg"] == first]
+    proxy = _Relabel(col)
+    for it in its:
+        c14.work(it, proxy)
+    col.sample(dict(kind="tabular prefix differencing (C14 history oracle)", learner=item["algo"], config=first, items=len(its)))
 
 
 def work(item, col):
